@@ -259,6 +259,22 @@ def handle (m : String) (j : Json) : Option (R Json) :=
                          ("ill_formed", jList (fun e => match e with
                             | Elem.opt o => jNat o.tag | .copt c => jNat c.tag | _ => jNat 0)
                             (es.filter (fun e => !e.wfB)))]
+  | "c06.dispatch" => some do
+      -- as which public element class `ArgsFormat(elements, base)` adds an object, from the public classes among
+      -- the bases of the object's REAL class (`type(o).__mro__`); theorems `Props.C06.dispatch_*`
+      let mros ← (← fArr j "mros").toList.mapM (fun m => do
+        match m with
+        | .arr a => a.toList.mapM (fun c => do
+            match c with
+            | .str "CommandName" => pure PubClass.commandName
+            | .str "CommandOption" => pure PubClass.commandOption
+            | .str "Option" => pure PubClass.option
+            | .str "Argument" => pure PubClass.argument
+            | _ => (.error "c06.dispatch: unknown public class" : R PubClass))
+        | _ => (.error "c06.dispatch: a list of class names expected" : R (List PubClass)))
+      return jList (fun m => match dispatch m with
+        | some .commandName => Json.str "name" | some .commandOption => Json.str "copt"
+        | some .option => Json.str "opt" | some .argument => Json.str "arg" | none => Json.str "foreign") mros
   | "c06.flatten" => some do
       -- the flattening the bridge theorems of Props/C06.lean are about, on the formats of the case
       match (← fStr j "kind") with
